@@ -268,7 +268,10 @@ func (u *Unit) exec(s ast.Stmt, st *State, f Flow) {
 				continue
 			}
 			for i, id := range vs.Names {
-				obj := u.g.P.Info.Defs[id].(*types.Var)
+				obj, isVar := u.g.P.Info.Defs[id].(*types.Var)
+				if !isVar {
+					continue // constants are resolved by the type checker
+				}
 				var v Term
 				if i < len(vs.Values) {
 					v = e.toType(e.ev(vs.Values[i]), obj.Type(), n)
@@ -719,9 +722,16 @@ func (u *Unit) loopBlock(s ast.Stmt) *Block {
 			}
 		}
 	}
-	for i, l := range loopsIn(u.fd.Body) {
+	all := loopsIn(u.fd.Body)
+	for i, l := range all {
 		if l == s {
-			return u.g.C.byID[funcKey(u.fd)+fmt.Sprintf("/loop%d", i)]
+			if b := u.g.C.byID[funcKey(u.fd)+fmt.Sprintf("/loop%d", i)]; b != nil {
+				return b
+			}
+			if i == len(all)-1 {
+				// the last loop of a function may be addressed as `loop 9999` (stable when loops are added before it)
+				return u.g.C.byID[funcKey(u.fd)+"/loop9999"]
+			}
 		}
 	}
 	return nil
@@ -1096,13 +1106,16 @@ func (u *Unit) assumeInvariants(lb *Block, st *State, pos token.Pos) {
 	if lb == nil {
 		return
 	}
-	for _, c := range lb.clauses("invariant") {
+	for _, c := range append(lb.clauses("invariant"), lb.clauses("assume")...) {
 		e := u.specEv(st, pos)
 		if lb.Case != "" && u.caseEntry != nil {
 			e.old = u.caseEntry
 		}
 		t := e.evSpec(c.Text)
 		st.assume(t.S)
+		if c.Kind == "assume" {
+			u.g.Assumed["assumed at the head of "+lb.ID()+" (not proved): "+c.Text] = true
+		}
 	}
 }
 
